@@ -10,6 +10,7 @@ OPS = {"add": operator.add, "sub": operator.sub, "mul": operator.mul, "div": ope
 
 CFG = """CONSTANTS N = {N}
  P = {P}
+ NI = {NI}
  MaxInstr = {maxinstr}
  MaxHist = {maxhist}
  Points <- {points}
@@ -37,9 +38,9 @@ CHECK_DEADLOCK FALSE
 
 
 def cfg(N=2, P=1, maxinstr=3, maxhist=2, points="PtsP1small", seeds="SeedsB", ops="OpsCore", refresh=True,
-        rollfwd=True, viatemp=True, drvx="XOne", drvv="VOne", drvw="WOne", emit=True, prefix="plain"):
+        rollfwd=True, viatemp=True, drvx="XOne", drvv="VOne", drvw="WOne", emit=True, prefix="plain", NI=1):
     b = lambda x: "TRUE" if x else "FALSE"
-    return CFG.format(N=N, P=P, maxinstr=maxinstr, maxhist=maxhist, points=points, seeds=seeds, ops=ops,
+    return CFG.format(N=N, P=P, NI=NI, maxinstr=maxinstr, maxhist=maxhist, points=points, seeds=seeds, ops=ops,
                       refresh=b(refresh), rollfwd=b(rollfwd), viatemp=b(viatemp), prefix=prefix, drvx=drvx, drvv=drvv, drvw=drvw,
                       emit=b(emit))
 
@@ -53,13 +54,13 @@ def ser(s):
     return [float(to_frac(q)) for q in s]
 
 
-def pt_to_utpm(algopy, pt):
-    """pt.x[p][j] = series  ->  UTPM data (D, P, N)"""
-    D = pt["D"]; x = pt["x"]; P = len(x); N = len(x[0])
+def pt_to_utpm(algopy, pt, lo=0, n=None):
+    """pt.x[p][lo + j] = series  ->  UTPM data (D, P, n)"""
+    D = pt["D"]; x = pt["x"]; P = len(x); N = len(x[0]) - lo if n is None else n
     data = numpy.zeros((D, P, N))
     for p in range(P):
         for j in range(N):
-            data[:, p, j] = ser(x[p][j])
+            data[:, p, j] = ser(x[p][lo + j])
     return algopy.UTPM(data)
 
 
@@ -111,10 +112,10 @@ class TracerReplayer:
         self.cgO.independentFunctionList = [zO]; self.cgO.dependentFunctionList = [wO]
         self.cg = al.CGraph()
         if self.rec_kind == "U":
-            x0 = pt_to_utpm(al, recpt)
+            x0 = pt_to_utpm(al, recpt, 0, self.N)
         elif self.rec_kind == "V":
             # recorded with a polynomial of another degree and direction count (D=3, P=2) than any later evaluation
-            base = pt_to_utpm(al, recpt).data[0, 0]
+            base = pt_to_utpm(al, recpt, 0, self.N).data[0, 0]
             d = numpy.zeros((3, 2, self.N))
             d[0, :] = base
             d[1, 0] = 1.0; d[1, 1] = -2.0; d[2, 0] = 0.5; d[2, 1] = 3.0
@@ -126,6 +127,20 @@ class TracerReplayer:
         self.nodes = [x, buf]; self.recd = [True, True]
         self.graph_nodes = [x, buf]
         self.check_graph()
+        self.z = None
+        if self.prefix == "two":
+            # an operation on x is recorded, THEN the second independent z is wrapped (its node is not among the first ones)
+            self.rec({"ins": {"op": "get", "a": 1, "b": 0, "i": 1}, "on": True, "v": []}, 0)
+            if self.rec_kind == "U":
+                z0 = pt_to_utpm(al, recpt, self.N, self.N)
+            elif self.rec_kind == "V":
+                dz = numpy.zeros((3, 2, self.N)); dz[0, :] = pt_to_utpm(al, recpt, self.N, self.N).data[0, 0]; dz[1, 0] = -1.0; dz[2, 1] = 2.0
+                z0 = al.UTPM(dz)
+            else:
+                z0 = numpy.array([ser(recpt["x"][0][self.N + j])[0] for j in range(self.N)])
+            self.z = al.Function(z0)
+            self.nodes.append(self.z); self.recd.append(True); self.graph_nodes.append(self.z)
+            self.check_graph()
         if self.prefix == "buffered":
             for ins in ({"op": "get", "a": 1, "b": 0, "i": 1}, {"op": "get", "a": 1, "b": 0, "i": 2},
                         {"op": "set", "a": 2, "b": 3, "i": 1}, {"op": "get", "a": 2, "b": 0, "i": 1}):
@@ -199,7 +214,12 @@ class TracerReplayer:
 
     def stop(self):
         self.cg.trace_off()
-        self.cg.independentFunctionList = [self.nodes[0]]
+        if self.z is None:
+            self.cg.independentFunctionList = [self.nodes[0]]
+        else:
+            # the order in which the independents are listed is the caller's choice
+            self.zx = (len(self.hist) % 2 == 1)
+            self.cg.independentFunctionList = [self.z, self.nodes[0]] if self.zx else [self.nodes[0], self.z]
         self.cg.dependentFunctionList = [self.nodes[-1]]
         self.dep = self.nodes[-1]
         self.snapshot = self.dep_digest()
@@ -209,12 +229,16 @@ class TracerReplayer:
         al = self.al
         pt = e["pt"]
         if e["kind"] == "U":
-            x = pt_to_utpm(al, pt)
+            x = pt_to_utpm(al, pt, 0, self.N)
             keep = x.data.copy()
         else:
             x = numpy.array([ser(pt["x"][0][j])[0] for j in range(self.N)])
             keep = x.copy()
-        self.cg.pushforward([x])
+        if self.z is None:
+            self.cg.pushforward([x])
+        else:
+            z = pt_to_utpm(al, pt, self.N, self.N) if e["kind"] == "U" else numpy.array([ser(pt["x"][0][self.N + j])[0] for j in range(self.N)])
+            self.cg.pushforward([z, x] if self.zx else [x, z])
         self.last_kind = e["kind"]
         check_val(self.dep.x, e["ret"], "dependent after pushforward")
         if not numpy.array_equal(keep, x.data if e["kind"] == "U" else x):
@@ -237,8 +261,11 @@ class TracerReplayer:
         ybar = al.UTPM(data.reshape(depshape).copy())
         keep = ybar.data.copy()
         self.cg.pullback([ybar])
-        xbar = self.cg.independentFunctionList[0].xbar
-        check_val(xbar, e["ret"], "xbar after pullback")
+        if self.z is None:
+            check_val(self.nodes[0].xbar, e["ret"], "xbar after pullback")
+        else:
+            check_val(self.nodes[0].xbar, e["ret"][:self.N], "xbar of the first independent after pullback")
+            check_val(self.z.xbar, e["ret"][self.N:], "xbar of the second independent after pullback")
         if not numpy.array_equal(keep, ybar.data):
             raise Mismatch("user-seed-modified", "pullback changed the caller's seed object")
         if not numpy.array_equal(self.snapshot, self.dep_digest()):
@@ -379,8 +406,8 @@ def probe_end(name, maxn=400):
 RECPT = {"D": 1, "x": [[[[1, 1]], [[2, 1]]]]}
 
 
-def recpt_for(P):
-    return {"D": 1, "x": [[[[1, 1]], [[2, 1]]] for _ in range(P)]}
+def recpt_for(P, NT=2):
+    return {"D": 1, "x": [[[[j + 1, 1]] for j in range(NT)] for _ in range(P)]}
 
 
 def tracer_check(rep, configs, pid, nontrivial=None):
@@ -425,7 +452,7 @@ def tracer_check(rep, configs, pid, nontrivial=None):
                 rec_this = (bi % 7 == 0) and len(TRACES) < 400
                 if rec_this:
                     probe_begin()
-                r = TracerReplayer(algopy, h, N, P, rec_kind=kind, prefix=c.get("prefix", "plain")).run(recpt_for(P))
+                r = TracerReplayer(algopy, h, N, P, rec_kind=kind, prefix=c.get("prefix", "plain")).run(recpt_for(P, N * c.get("NI", 1)))
                 if rec_this:
                     probe_end("%s behaviour %d (%s)" % (name, bi, kind))
                 ninstr = sum(1 for e in h if e["c"] == "rec")
